@@ -1,62 +1,76 @@
 import Bptk.Core.C16
 /-! Line-protocol driver for the C16 instance-isolation model:  `lake env lean --run Drive/C16.lean < lines`
 
-`cfg <0|1> <0|1>`           instancesShareNothing restoreOnlyAddressed
-`run <k> <ad> <ops>`        k initial instances, ad = 1: external state adapter; ops: comma list of `<id><code>` (or `-`);
-                            codes: b | b<int> | s | s<int> | r | e | k | x | t | c (create) | R | R<int> (/run) | q (/equations) | a (/agents)
-reply: one token per op: inv nodata started step:<t> res:<n> ended alive deleted swept created ran names noagents saveerr none
-`val <k> <ad> <ops>`        same, with the model's values: step:<t>:<stock>:<knob>, ran:<knob> -/
+`cfg <0|1> <0|1> <0|1>`     instancesShareNothing restoreOnlyAddressed freshObjects
+`run <k> <ad> <ops>`        k initial instances, ad = 1: external state adapter; ops: comma list of `<id><code>[<settings>]` (or `-`);
+                            codes: b s (begin-session / run-step, optional settings) r e k x t c (create) R (/run, optional settings)
+                            q (/equations) a (/agents); settings: `<key>=<value>` joined by `+` (keys 0,1 constants; 2,3 points)
+reply: one token per op: inv nodata started step:<t> res:<n> ended alive deleted swept created ran names noagents saveerr none,
+       then `made:<n>` (number of factory calls)
+`val <k> <ad> <ops>`        same, with the model's values: step:<t>:<memo>  ran:<eff>   (eff: `k=v+k=v` or `-`; memo: effs joined by `|`) -/
 open Bptk.C16
+open Bptk.C06 (Store)
+
+def parseStore (s : String) : Option Store :=
+  if s.isEmpty then some [] else
+  (s.splitOn "+").mapM (fun p => match p.splitOn "=" with
+    | [a, b] => do some ((← a.toNat?), (← b.toNat?))
+    | _ => none)
 
 def parseOp (s : String) : Option (Nat × Req) :=
   let cs := s.toList
   let ds := String.ofList (cs.takeWhile Char.isDigit)
-  let rest := String.ofList (cs.dropWhile Char.isDigit)
-  match ds.toNat? with
-  | none => none
-  | some i =>
-    if rest == "b" then some (i, .beginSession none)
-    else if rest == "s" then some (i, .runStep none)
-    else if rest == "c" then some (i, .create)
-    else if rest == "R" then some (i, .run none)
-    else if rest == "q" then some (i, .equations)
-    else if rest == "a" then some (i, .agents)
-    else if rest == "r" then some (i, .results)
-    else if rest == "e" then some (i, .endSession)
-    else if rest == "k" then some (i, .keepAlive)
-    else if rest == "x" then some (i, .stop)
-    else if rest == "t" then some (i, .expire)
-    else if rest.startsWith "s" then ((rest.drop 1).toString.toInt?).map fun v => (i, .runStep (some v))
-    else if rest.startsWith "b" then ((rest.drop 1).toString.toInt?).map fun v => (i, .beginSession (some v))
-    else if rest.startsWith "R" then ((rest.drop 1).toString.toInt?).map fun v => (i, .run (some v))
+  let rest := cs.dropWhile Char.isDigit
+  match ds.toNat?, rest with
+  | some i, code :: args =>
+    let a := String.ofList args
+    if code == 'b' then (parseStore a).map fun st => (i, .beginSession st)
+    else if code == 's' then (parseStore a).map fun st => (i, .runStep st)
+    else if code == 'R' then (parseStore a).map fun st => (i, .run st)
+    else if !a.isEmpty then none
+    else if code == 'c' then some (i, .create)
+    else if code == 'q' then some (i, .equations)
+    else if code == 'a' then some (i, .agents)
+    else if code == 'r' then some (i, .results)
+    else if code == 'e' then some (i, .endSession)
+    else if code == 'k' then some (i, .keepAlive)
+    else if code == 'x' then some (i, .stop)
+    else if code == 't' then some (i, .expire)
     else none
+  | _, _ => none
+
+def showStore (s : Store) : String :=
+  if s.isEmpty then "-" else "+".intercalate (s.map fun kv => s!"{kv.1}={kv.2}")
 
 def respStr (vals : Bool) : Option Resp → String
   | none => "none"
   | some .invalid => "inv"
   | some .noData => "nodata"
   | some .started => "started"
-  | some (.stepped t st k) => if vals then s!"step:{t}:{st}:{k}" else s!"step:{t}"
+  | some (.stepped t memo) => if vals then s!"step:{t}:" ++ "|".intercalate (memo.map showStore) else s!"step:{t}"
   | some (.results l) => s!"res:{l.length}"
   | some .ended => "ended"
   | some .timerReset => "alive"
   | some .deleted => "deleted"
   | some .swept => "swept"
   | some .created => "created"
-  | some (.ran k) => if vals then s!"ran:{k}" else "ran"
+  | some (.ran e) => if vals then s!"ran:{showStore e}" else "ran"
   | some .names => "names"
   | some .noAgents => "noagents"
   | some .saveError => "saveerr"
 
 def stepLine (c : Cfg) (line : String) : Cfg × String :=
   match line.trimAscii.toString.splitOn " " with
-  | ["cfg", v, w] =>
-      if (v == "1" || v == "0") && (w == "1" || w == "0") then (⟨v == "1", w == "1"⟩, "ok") else (c, "bad-op")
+  | ["cfg", v, w, f] =>
+      if (v == "1" || v == "0") && (w == "1" || w == "0") && (f == "1" || f == "0") then (⟨v == "1", w == "1", f == "1"⟩, "ok")
+      else (c, "bad-op")
   | [cmd, k, ad, ops] =>
       if (cmd != "run" && cmd != "val") || (ad != "0" && ad != "1") then (c, "bad-op") else
       match k.toNat?, (if ops == "-" then some [] else (ops.splitOn ",").mapM parseOp) with
       | some k, some ops =>
-          (c, ",".intercalate ((resps c (Server.initAd k (ad == "1")) ops).map fun r => respStr (cmd == "val") r.2))
+          let s0 := Server.initAd k (ad == "1")
+          let toks := (resps c s0 ops).map fun r => respStr (cmd == "val") r.2
+          (c, ",".intercalate (toks ++ [s!"made:{(final c s0 ops).made}"]))
       | _, _ => (c, "bad-op")
   | _ => (c, "bad-op")
 
@@ -67,4 +81,4 @@ partial def loop (h : IO.FS.Stream) (c : Cfg) : IO Unit := do
   IO.println out
   loop h c'
 
-def main : IO Unit := do loop (← IO.getStdin) ⟨true, true⟩
+def main : IO Unit := do loop (← IO.getStdin) ⟨true, true, true⟩
